@@ -43,7 +43,7 @@ TopPos == <<31, 31>>
 NoEntry == [pos |-> NoPos, src |-> "none", id |-> <<>>]
 RootEntry(t) == [pos |-> TopPos, src |-> "root", id |-> t]
 IdleOp == [st |-> "idle", kind |-> "-", rk |-> NoRk, sd |-> "-", l0 |-> -1, pos |-> NoPos, sync |-> TRUE,
-           env |-> NoEntry, res |-> <<"none">>, rpc |-> FALSE, at |-> <<-1, NoPos>>]
+           env |-> NoEntry, res |-> <<"none">>, rpc |-> FALSE, at |-> <<-1, NoPos>>, hadRoot |-> FALSE]
 
 (* positions a blob can name at L0 = l0 (nothing from the future)            *)
 Nameable(l0, p) == l0 < NowL0 \/ (l0 = NowL0 /\ PosGeq(NowPos, p))
@@ -98,7 +98,8 @@ BeginWith(o, kind, rk, sd, l0, pos, sync) ==
       t == IF kind = "unprotect" THEN <<rk, sd, l0>> ELSE <<rk, sd, NowL0>>
       p == IF kind = "unprotect" THEN pos ELSE NowPos
       lk == IF named THEN Lookup(t, p) ELSE <<FALSE, NoEntry, cache>>
-      base == [IdleOp EXCEPT !.kind = kind, !.rk = rk, !.sd = sd, !.l0 = l0, !.pos = pos, !.sync = sync, !.at = <<NowL0, NowPos>>]
+      base == [IdleOp EXCEPT !.kind = kind, !.rk = rk, !.sd = sd, !.l0 = l0, !.pos = pos, !.sync = sync, !.at = <<NowL0, NowPos>>,
+                               !.hadRoot = (rk \in loaded)]
   IN /\ cache' = lk[3]
      /\ IF lk[1]
           THEN /\ ops' = [ops EXCEPT ![o] = [base EXCEPT !.st = "replied", !.env = lk[2]]]
@@ -215,6 +216,10 @@ NoRepeatRpc ==
           IN IF op.kind = "unprotect" THEN ~ObtainedCovers(<<op.rk, op.sd, op.l0>>, op.pos)
              ELSE (op.rk # NoRk => ~ObtainedCovers(<<op.rk, op.sd, NowL0>>, NowPos))]_vars
 
+(* a call for a root key that was loaded when it began is answered from that key: it decrypts  *)
+RootKeyDecrypts ==
+  \A o \in Ops : (ops[o].st = "done" /\ ops[o].kind = "unprotect" /\ ops[o].hadRoot) => ops[o].res[1] = "plain"
+
 (* with a loaded root key nothing goes to the DC for that key                         *)
 RootKeyIsOffline ==
   [][\A o \in Ops : (ops[o].st = "idle" /\ ops'[o].st = "await") => ops'[o].rk \notin loaded]_vars
@@ -229,6 +234,7 @@ CacheMonotone ==
 
 CacheWellFormed ==
   \A t \in Triples : cache[t].src # "none" =>
+     /\ cache[t].src \in {"root", "rpc"}      \* never an envelope without seed material (public key only, failure)
      /\ cache[t].id = t
      /\ cache[t].src = "root" => (t[1] \in loaded /\ cache[t].pos = TopPos)
      /\ Nameable(t[3], cache[t].pos) \/ cache[t].src = "root"
